@@ -115,3 +115,50 @@ pub fn sqrt_small(x: Float) -> Float {
     assert!(x >= 0. && n <= 16 && n as Float == x, "sqrt_small: argument outside the modelled table");
     TABLE[n]
 }
+
+/// A symbolic, time-independent routing matrix over `L` locations (durations and distances separate).
+pub struct SymMatrix<const L: usize> {
+    pub durations: [[Float; L]; L],
+    pub distances: [[Float; L]; L],
+}
+
+impl<const L: usize> SymMatrix<L> {
+    /// Entries are arbitrary integer-valued doubles in [0, 255].
+    pub fn any_u8() -> Self {
+        let mut durations = [[0.; L]; L];
+        let mut distances = [[0.; L]; L];
+        let mut i = 0;
+        while i < L {
+            let mut j = 0;
+            while j < L {
+                durations[i][j] = any_u8f();
+                distances[i][j] = any_u8f();
+                j += 1;
+            }
+            i += 1;
+        }
+        Self { durations, distances }
+    }
+}
+
+impl<const L: usize> TransportCost for SymMatrix<L> {
+    fn duration_approx(&self, _: &Profile, from: Location, to: Location) -> Float {
+        self.durations[from][to]
+    }
+
+    fn distance_approx(&self, _: &Profile, from: Location, to: Location) -> Float {
+        self.distances[from][to]
+    }
+
+    fn duration(&self, _: &crate::models::solution::Route, from: Location, to: Location, _: TravelTime) -> Float {
+        self.durations[from][to]
+    }
+
+    fn distance(&self, _: &crate::models::solution::Route, from: Location, to: Location, _: TravelTime) -> Float {
+        self.distances[from][to]
+    }
+
+    fn size(&self) -> usize {
+        L
+    }
+}
